@@ -1161,6 +1161,13 @@ class Interp:
                 if isinstance(recv, ClsV):      # unbound call Class.method(self, ...)
                     return self.call_repo(fi, args, kwargs, node)
                 return self.call_repo(fi, [recv] + args, kwargs, node)
+            if f.kind == 'ext' and f.target in ('functools.partial', 'partial') and args:
+                return FuncV('partial', (args[0], tuple(args[1:]), tuple(sorted(kwargs.items(), key=lambda kv: kv[0]))))
+            if f.kind == 'partial':
+                inner, pre, kw0 = f.target
+                kw2 = dict(kw0)
+                kw2.update(kwargs)
+                return self.call(inner, list(pre) + list(args), kw2, node, env)
             if f.kind == 'ext':
                 return self.call_ext(f.target, args, kwargs, node)
             if f.kind == 'native':
